@@ -43,6 +43,12 @@ Tables (one ``table.run`` each, own counters in the evidence):
   gate      gate_with_mpo, mps_gate_with_mpo_* and gate_with_submpo /
             gate_nonlocal for every method x site subset x transpose
 
+Harness-side seams (no repository change): cotengra is told that our pool
+workers are worker processes so that its 'auto' path optimiser does not spawn
+a process pool of its own inside them (see ``_qtn``); an exception escaping a
+cell (e.g. while building inputs with the constructors) is reported as a
+violation of that cell (``_guarded``), not as a harness error.
+
 Conventions established on the real code (not defects):
   * ``tn.H`` conjugates only (no upper/lower swap): dense(A.H) = conj(A).
   * ``apply_op_op(which_A, which_B)``: (lower, upper) = A B, (lower, lower) =
@@ -430,6 +436,10 @@ def cell_build(cell, common):
             v = _ref_vec(_mps_arrays(L, phys, 2, False, dtype, ("fd2",)), False)
         shp = {"flat": (D,), "ket": (D, 1), "tensor": tuple(phys)}[dimsk]
         dims = phys[0] if (physk.startswith("u") and dimsk == "flat") else list(phys)
+        if str(dtype) not in SINGLE and not _default_cutoff_safe(_schmidt(v, phys)):
+            # (single precision: anything the default cutoff drops is far below the 5e-4 tolerance)
+            R.rej("roundtrip", "harness:singular-value-near-default-cutoff")
+            return R
 
         def f():
             m = qtn.MatrixProductState.from_dense(v.reshape(shp), dims)
@@ -881,8 +891,8 @@ def cell_arith(cell, common):
     V("lincomb:mps", "__add__", lambda: _dv(z * a - b / 2 + a), z * va - vb / 2 + va)
     if not cyclic and L > 1:
         # sum followed by lossless compression (open chains: canonical sweep)
-        V("add_MPS:compress", "add_MPS", lambda: _dv(a.add_MPS(b, compress=True, cutoff=1e-13)), va + vb, max(rt, 1e-8), root="compress=True")
-        V("add_MPO:compress", "add_MPO", lambda: _dm(A.add_MPO(B, compress=True, cutoff=1e-13)), MA + MB, max(rt, 1e-8), root="compress=True")
+        V("add_MPS:compress", "add_MPS", lambda: _dv(a.add_MPS(b, compress=True, cutoff=0.0)), va + vb, max(rt, 1e-8), root="compress=True")
+        V("add_MPO:compress", "add_MPO", lambda: _dm(A.add_MPO(B, compress=True, cutoff=0.0)), MA + MB, max(rt, 1e-8), root="compress=True")
 
     # ---- operator on state / operator ----------------------------------- #
     for contract in (True, False):
@@ -908,8 +918,8 @@ def cell_arith(cell, common):
     V("apply_:vec", "apply", apply_inplace, MA @ va)
     V("apply:vec:inputs-intact", "apply", lambda: (A.apply(a), np.concatenate([_dv(a), _dm(A).reshape(-1)]))[1], np.concatenate([va, MA.reshape(-1)]))
     if not cyclic and L > 1:
-        V("apply:vec:compress", "apply", lambda: _dv(A.apply(a, compress=True, cutoff=1e-13)), MA @ va, max(rt, 1e-8), root="compress=True")
-        V("apply:op:compress", "apply", lambda: _dm(A.apply(B, compress=True, cutoff=1e-13)), MA @ MB, max(rt, 1e-8), root="compress=True")
+        V("apply:vec:compress", "apply", lambda: _dv(A.apply(a, compress=True, cutoff=0.0)), MA @ va, max(rt, 1e-8), root="compress=True")
+        V("apply:op:compress", "apply", lambda: _dm(A.apply(B, compress=True, cutoff=0.0)), MA @ MB, max(rt, 1e-8), root="compress=True")
     V("apply:chain", "apply", lambda: _dv(A.apply(B.apply(a))), MA @ (MB @ va))
 
     # ---- overlaps, norms, expectation values, traces -------------------- #
@@ -1160,6 +1170,16 @@ def cell_submpo(cell, common):
     if passL:
         kw["L"] = Lt
     wantL = Lt if passL else max(sites) + 1
+    sorted_M = ref.permute(M, dims, [list(sites).index(s) for s in ss])
+    # quimb's default split cutoff (1e-10, relative sum of squares) makes the
+    # default call exact only when no operator-Schmidt value sits near it: the
+    # default call is checked when that holds with a 1e4 margin, everything
+    # downstream uses the same call with cutoff=0.0 (documented split option)
+    if _default_cutoff_safe(_schmidt(_op_as_vec(sorted_M, [phys[s] for s in ss]), [phys[s] ** 2 for s in ss])):
+        _value(R, "from_dense:default-cutoff", "MatrixProductOperator.from_dense", lambda: _dm(qtn.MatrixProductOperator.from_dense(M, dims, **kw)), sorted_M, rt, nontrivial=len(sites) > 1)
+    else:
+        R.rej("from_dense:default-cutoff", "harness:singular-value-near-default-cutoff")
+    kw["cutoff"] = 0.0
     try:
         mpo = qtn.MatrixProductOperator.from_dense(M, dims, **kw)
         present = tuple(mpo.gen_sites_present())
@@ -1167,7 +1187,6 @@ def cell_submpo(cell, common):
     except Exception as ex:
         R.bad("from_dense", "MatrixProductOperator.from_dense(sites=%r) raised %s: %s" % (sites, _exc_name(ex), str(ex)[:200]), entry="MatrixProductOperator.from_dense", check="crash", exc=_exc_name(ex))
         return R
-    sorted_M = ref.permute(M, dims, [list(sites).index(s) for s in ss])
     if mpo.L != wantL or present != tuple(ss):
         R.bad("from_dense", "from_dense(sites=%r, L=%r): L=%r present=%r" % (sites, Lt if passL else None, mpo.L, present), entry="MatrixProductOperator.from_dense", check="structure")
     elif not ref.close(got, sorted_M, rtol=rt):
@@ -1352,6 +1371,23 @@ def _rank_profile(spectra):
             amb = True
         ranks.append(int(np.sum(rel >= 1e-4)))
     return ranks, amb
+
+
+def _default_cutoff_safe(spectra, lo=1e-20, hi=1e-6):
+    """from_dense / gate_nonlocal split with quimb's default cutoff=1e-10 in
+    'rsum2' mode (relative sum of squares): the round trip is only exact when
+    no squared relative singular value lies near that threshold.  True when
+    every s^2/sum(s^2) is either >= hi (kept with a 1e4 margin) or <= lo
+    (numerically zero)."""
+    for sv in spectra:
+        sv = np.asarray(sv, dtype=float)
+        tot = float(np.sum(sv**2))
+        if tot == 0.0:
+            continue
+        rel = sv**2 / tot
+        if np.any((rel > lo) & (rel < hi)):
+            return False
+    return True
 
 
 def _canon_defect(tn, sites, centre):
@@ -1794,8 +1830,17 @@ def cell_gate(cell, common):
         G = fill("generic", (d, d), dtype, key=("c09", "G", where))
         si, sf = min(where), max(where)
         region = "single" if si == sf else ("whole" if (si == 0 and sf == L - 1) else "proper")
+        ssw = sorted(where)
+        sG = ref.permute(G, dimsw, [list(where).index(x) for x in ssw])
+        if entry == "gate_nonlocal" and not _default_cutoff_safe(_schmidt(_op_as_vec(sG, [phys[x] for x in ssw]), [phys[x] ** 2 for x in ssw])):
+            # gate_nonlocal splits G with the default cutoff (see cell_submpo)
+            R.rej("all", "harness:singular-value-near-default-cutoff")
+            return R
         for transpose in (False, True):
             vin = ref.apply_op(G.T if transpose else G, va, phys, where)
+            if _rank_profile(_schmidt(vin, phys))[1]:
+                R.rej("T=%d" % transpose, "harness:ambiguous-rank-profile")
+                continue
             for sname, mb, co, skind in (("roomy", 16, 1e-12, "lossless"), ("cap2", 2, 0.0, "cap")):
                 if method == "lazy" and sname != "roomy":
                     continue
@@ -1809,7 +1854,7 @@ def cell_gate(cell, common):
                     if entry == "gate_nonlocal":
                         out = a.gate_nonlocal(G, where, method=method, transpose=transpose, **kw)
                     else:
-                        sub_mpo = qtn.MatrixProductOperator.from_dense(G, dimsw, sites=where, L=L)
+                        sub_mpo = qtn.MatrixProductOperator.from_dense(G, dimsw, sites=where, L=L, cutoff=0.0)
                         out = a.gate_with_submpo(sub_mpo, method=method, transpose=transpose, **kw)
                     vo = _dv(out)
                     mxb = out.max_bond()
@@ -1941,7 +1986,7 @@ def run(ctx):
         "expec_TN_1D(compress=True) only with uniform bond dimensions: scipy 1.18's interpolative rsvd raises on complex non-square LinearOperators (third party)",
         "fill_empty_sites with the default / phys_dim identities only on chains of uniform physical dimension (one identity size is inserted)",
         "constructors with sites=: subsets of >= 2 sites (the array layout of a single present site of a longer chain is not documented)",
-        "from_dense inputs are generic / exactly low rank: no singular value within 1e4 of the default cutoff",
+        "from_dense / gate_nonlocal with quimb's default split cutoff (1e-10 relative sum of squares) are asserted only when no squared relative (operator-)Schmidt value of the input lies in (1e-20, 1e-6) (else rejection 'harness:singular-value-near-default-cutoff'); every downstream check builds its sub-MPO with cutoff=0.0",
         "compression oracles are skipped (counted as rejection 'harness:ambiguous-rank-profile') when a reference Schmidt value lies in (1e-12, 1e-4) relative: truncation decisions keep a >= 1e4 margin",
         "randomised / variational methods get seed=7; fit methods run their default 10 sweeps and are checked to 1e-6, all others to 1e-7 (relative 2-norm)",
         "canonical form: centre at site 0 (L-1 with sweep_reverse) as promised by the dispatcher docstring for every method; for fit with the default even number of sweeps",
